@@ -34,12 +34,14 @@ SPEC = dict(
          "malformed strings; serialize+parse on random maps. (c) real SaslManager and Sasl2Manager with a capturing socket: ALL server "
          "element sequences up to length 3 (quick) / 4 (thorough) over 12 symbols (honest/foreign server-first, right/wrong "
          "server-final, empty challenge, success bare / with right / with wrong data, failure, failure-aborted, continue, unknown) "
-         "for SCRAM-SHA-1 and DIGEST-MD5, up to 2 for the other SCRAM hashes, up to 3 over 8 symbols for PLAIN and HT, plus seeded "
+         "plus success carrying the mechanism's FIRST challenge (13 symbols) for SCRAM-SHA-1 and DIGEST-MD5, up to 2 for the other SCRAM hashes, up to 3 over 8 symbols for PLAIN and HT, plus seeded "
          "random longer sequences over all mechanisms; per element: handled/sent bytes/result compared with the model. "
          "A sequence is non-trivial when it yields >= 2 distinct observations. Oracle, independent of the model: reference RFC 5802 "
          "server, RFC 2831 formulas and strict directive parser, RFC 4616 and XEP-0484 messages written in the harness with "
          "QCryptographicHash/QMessageAuthenticationCode/QPasswordDigestor; same password accepted, other password rejected; "
-         "SCRAM login reported successful only if the correct server signature reached the client. Harness built with ASan+UBSan.",
+         "SCRAM login reported successful only if the correct server signature reached the client, DIGEST-MD5 login only if the "
+         "correct rspauth did; DIGEST-MD5 response-value checked against RFC 2831 incl. its ISO 8859-1 rule for Latin-1 representable "
+         "credentials; reserved SCRAM attribute m= must be refused. Harness built with ASan+UBSan.",
     trusted_base=[
         "Lean 4.33.0 kernel; axioms per theorem listed under coverage.theorems (subset of propext, Classical.choice, Quot.sound)",
         "hand-written model lean/Qx/Model/C06Sasl.lean (clients, parseGS2, QByteArray::toInt, DIGEST-MD5 grammar, managers), tied to "
@@ -62,6 +64,9 @@ SPEC = dict(
         "named assumption behind that reading)",
         "mechanism choice, channel binding (HT -ENDP/-UNIQ/-EXPR, SCRAM-PLUS) and FAST token rotation are outside this property",
         "iteration counts above INT_MAX are refused by the client (toInt); theorems carry 1 <= i <= 2^31-1",
+        "DIGEST-MD5: the client always announces charset=utf-8 (also when the server did not offer it; RFC 2831 then means "
+        "ISO 8859-1) — the DIGEST theorems carry Ref.digestEnc x = x (ASCII, or beyond U+00FF) for user, realm, password; the "
+        "excluded Latin-1 case is the recorded finding C06:digest-md5-latin1-hashed-as-utf8",
     ],
     level_text="Theorems, parametric in H/HMAC/Hi/MD5 and for ALL credentials, salts, counts, nonces: the SCRAM messages are RFC 5802's, "
                "a reference RFC 5802 server with the same secret accepts (XOR algebra) and its server-final is accepted with the "
@@ -69,7 +74,8 @@ SPEC = dict(
                "value and accepted by a reference server; PLAIN = RFC 4616 (other password rejected), HT = XEP-0484; "
                "parseMessage(serializeMessage m) = m for every QMap with token keys; FULL success_only_after_server_proof for every "
                "server script and both managers (repaired tree: commits 0b21ae7, 43097ab, aca51c7; the old witnesses stay in the corpus). "
-               "One defect theorem left: unquoted DIGEST-MD5 directives. "
+               "Defect theorems with witnesses (recorded findings): DIGEST-MD5 success without rspauth (both managers), Latin-1 "
+               "credentials hashed as UTF-8, reserved m= ignored, unquoted DIGEST-MD5 directives. "
                "Model tied to the real clients and managers by byte-exact correspondence.",
     level_note="Proved about the hand-written model; model-to-code tie is differential (exhaustive to the stated depth, sampled beyond). "
                "The 'no server with a different secret accepts' half is an exact algebraic condition plus a named cryptographic "
